@@ -167,7 +167,7 @@ def _av_range(rng, clamp):
 # C01
 # ---------------------------------------------------------------------------
 
-def check_dtype_independent(rec, case, mode, fluxes, wav, dist, k, flags, flux, lo, hi):
+def check_dtype_independent(rec, case, mode, fluxes, wav, dist, k, flags, flux, lo, hi, error=None):
     """The same integer-valued photometry stored as int / with unsigned-integer flags fits like the float / int one."""
     flags = np.asarray(flags)
     fi = np.where(np.isin(flags, (1, 2, 3)), np.maximum(np.round(np.abs(np.asarray(flux, dtype=float)) * 100) + 2, 2), 7).astype(int)
@@ -181,16 +181,22 @@ def check_dtype_independent(rec, case, mode, fluxes, wav, dist, k, flags, flux, 
     sj = pkg.make_source('src', fl_i, fi.astype(float), ef)
     sj.flux = fi
     sj.error = ei2
-    su = pkg.make_source('src', fl_i, fi.astype(float), ef)
-    su.valid = np.asarray(fl_i).astype(np.uint8)
+    # (the unsigned-flag twin keeps the real photometry, so that limits keep their confidences)
+    err_ = np.asarray(error, dtype=float) if error is not None else ef
+    flx_ = np.asarray(flux, dtype=float) if error is not None else fi.astype(float)
+    fl_u = flags if error is not None else fl_i
+    s0 = pkg.make_source('src', fl_u, flx_, err_)
+    su = pkg.make_source('src', fl_u, flx_, err_)
+    su.valid = np.asarray(fl_u).astype(np.uint8)
     try:
         _, a_f = _fit_any(mode, fluxes, wav, dist, k, si, lo, hi)
         _, a_i = _fit_any(mode, fluxes, wav, dist, k, sj, lo, hi)
+        _, a_0 = _fit_any(mode, fluxes, wav, dist, k, s0, lo, hi)
         _, a_u = _fit_any(mode, fluxes, wav, dist, k, su, lo, hi)
     except Exception as e:
         return rec.fail('crash', 'fit of integer-typed photometry raised %s: %s' % (type(e).__name__, e), case)
     ok = rec.expect(_same_fit(a_f, a_i, tol=1e-12), 'dtype_independent', 'the same photometry stored with an integer dtype fits differently', case)
-    ok &= rec.expect(_same_fit(a_f, a_u, tol=1e-12), 'dtype_independent', 'the same flags stored as unsigned 8-bit integers fit differently', case)
+    ok &= rec.expect(_same_fit(a_0, a_u, tol=1e-12), 'dtype_independent', 'the same flags stored as unsigned 8-bit integers fit differently', case)
     return ok
 
 
@@ -474,7 +480,7 @@ def c03_one(rec, case):
         ok &= rec.expect(_same_fit(i_c0, i_off), 'confidence0_equals_flag0', 'a limit with confidence 0 is not equivalent to an unused point', case)
     # integer-valued photometry stored with an integer dtype / unsigned flags fits like the same numbers stored as floats
     if c.get('int_dtype'):
-        ok &= check_dtype_independent(rec, case, mode, fluxes, wav, dist, k, flags, c['flux'], lo, hi)
+        ok &= check_dtype_independent(rec, case, mode, fluxes, wav, dist, k, flags, c['flux'], lo, hi, error=c['error'])
     # the SAME source object, re-flagged / re-valued in place (element-wise, not through the setters) and fitted again,
     # fits like a fresh source carrying the new content: nothing about a source is remembered between fits
     if n >= 3:
